@@ -3,6 +3,7 @@ import SamVerif.Model.TailRec
 import SamVerif.Model.CpeSem
 import SamVerif.Model.TailStmt
 import SamVerif.Model.CpeProg
+import SamVerif.Model.VecRt
 import Driver.Util
 /-! Line-protocol driver for property C01 (model side): protocols `layout`, `tailrec`, `cpe`.
 Each line carries, after `##`, the model-side description of the same input that the harness
@@ -534,6 +535,39 @@ def lirloopLine (rest : String) : String :=
     | none => "bad-model-line"
   | _ => "bad-model-line"
 
+/-! ### vecrt: op histories through the Vec runtime model -/
+open VecRt in
+/-- ops: `E` | `W c` | `O x` | `R m` | `P x` | `Q` (pop, print) | `G i` (get, print) | `S i x` |
+`L` (print length) | `C` (print capacity). Answer: printed values, then `ok` / the panic / `trap`. -/
+partial def vecrtRun (v : Vec) (out : List String) : List String → String
+  | [] => ",".intercalate out ++ "|ok"
+  | "E" :: r => vecrtRun empty out r
+  | "W" :: c :: r => vecrtRun (withCapacity c.toNat!) out r
+  | "O" :: x :: r => vecrtRun (ofV (x.toInt?.getD 0)) out r
+  | "R" :: m :: r => vecrtRun (reserve v m.toNat!) out r
+  | "P" :: x :: r => vecrtRun (push v (x.toInt?.getD 0)) out r
+  | "L" :: r => vecrtRun v (out ++ [toString v.len]) r
+  | "C" :: r => vecrtRun v (out ++ [toString (capacity v)]) r
+  | "Q" :: r =>
+    match pop v with
+    | .ok (x, v') => vecrtRun v' (out ++ [toString x]) r
+    | .panicPop => ",".intercalate out ++ "|panic:pop from empty Vec"
+    | .panicOob => ",".intercalate out ++ "|panic:Vec index out of bounds"
+    | .trap => ",".intercalate out ++ "|trap"
+  | "G" :: i :: r =>
+    match VecRt.get v (i.toInt?.getD 0) with
+    | .ok x => vecrtRun v (out ++ [toString x]) r
+    | .panicOob => ",".intercalate out ++ "|panic:Vec index out of bounds"
+    | .panicPop => ",".intercalate out ++ "|panic:pop from empty Vec"
+    | .trap => ",".intercalate out ++ "|trap"
+  | "S" :: i :: x :: r =>
+    match VecRt.set v (i.toInt?.getD 0) (x.toInt?.getD 0) with
+    | .ok v' => vecrtRun v' out r
+    | .panicOob => ",".intercalate out ++ "|panic:Vec index out of bounds"
+    | .panicPop => ",".intercalate out ++ "|panic:pop from empty Vec"
+    | .trap => ",".intercalate out ++ "|trap"
+  | _ => "bad-model-line"
+
 def step (_ : Unit) (line : String) : Unit × String :=
   let line := line.trimAscii.toString
   let (k, rest) := match line.splitOn " " with
@@ -546,6 +580,7 @@ def step (_ : Unit) (line : String) : Unit × String :=
        else if k == "tailstmt" then tailstmtLine rest
        else if k == "cpeprog" then cpeprogLine rest
        else if k == "lirloop" then lirloopLine rest
+       else if k == "vecrt" then vecrtRun VecRt.empty [] (words rest)
        else "bad-line")
 
 end Driver.C01
